@@ -83,6 +83,7 @@ def cases(tier):
         for dirs in (['d 1'], ['%41', 'x\ny'], ['é', '+', '='], ['a%', '#?'], ['..x', ' '], ['日本', '%2F', 'z'], ['mnt', 'v1', 'deep'], ['home', 'u', 'w']):
             for n in ('f', '%', 'a b'):
                 out.append({'name': n, 'form': form, 'dirs': dirs, 'date': '2024-05-06T07:08:09', 'us': 0})
+        out.append({'name': 'leaf', 'form': form, 'dirs': [('%dé' % i) + 'é' * 118 for i in range(7)], 'date': '2024-05-06T07:08:09', 'us': 0})
         for d in DATES:
             for us in (0, 999999):
                 out.append({'name': 'dated', 'form': form, 'dirs': [], 'date': d, 'us': us})
